@@ -271,6 +271,14 @@ package bgv
 //@   ensures implies(isnil(err), iff(opOut.MetaData.CiphertextMetaData.IsNTT, old(op0.MetaData.CiphertextMetaData.IsNTT)) && iff(opOut.MetaData.PlaintextMetaData.IsBatched, old(op0.MetaData.PlaintextMetaData.IsBatched)))
 //@   ensures implies(old(len(op0.Value[0].Coeffs)) == 1, !isnil(err))
 
+// ---- ... and records the scale of the input divided by the prime it consumed (named, not interpreted),
+// ---- on a receiver that is the input and on one that is not (level fixed to 2 by the cases)
+//@ afunc Evaluator.Rescale#scale
+//@   property C05
+//@   case len(op0.Value) == 2 && len(opOut.Value) == 2 && len(op0.Value[0].Coeffs) == 3 && len(opOut.Value[0].Coeffs) == 3 && !eval.ScaleInvariant
+//@   case len(op0.Value) == 2 && len(op0.Value[0].Coeffs) == 3 && !eval.ScaleInvariant ; alias opOut = op0
+//@   ensures implies(isnil(err), uf_sv(contentid(opOut.MetaData.PlaintextMetaData.Scale)) == uf_sdiv(uf_sv(contentid(old(op0.MetaData.PlaintextMetaData.Scale))), uf_newscale(eval.parameters.Parameters.ringQ.SubRings[2].Modulus)))
+
 // ---- ciphertext * ciphertext without relinearisation (BGV style): the degree-2 tensor, times the
 // ---- plaintext modulus T that the evaluator keeps as an RNS scalar in double Montgomery form
 // ---- (ASSUMED invariant of the evaluator: uf_rnsmexp(tMontgomery) == 2; T itself is not interpreted);
@@ -323,3 +331,34 @@ package bgv
 //@   requires isntt(op0.Value[0]) && isntt(op0.Value[1]) && isntt(op1.Value[0]) && isntt(op1.Value[1]) && mexp(op0.Value[0]) == 0 && mexp(op0.Value[1]) == 0 && mexp(op1.Value[0]) == 0 && mexp(op1.Value[1]) == 0
 //@   requires uf_rnsmexp(contentid(eval.tMontgomery)) == 2
 //@   ensures !isnil(err)
+
+// ---- operand degree too high (property C05): a product whose operands have total degree 3 is refused
+// ---- with an error (the tensor below handles total degree 2 only)
+//@ afunc Evaluator.Mul#toohigh
+//@   property C05
+//@   dyn op1 *rlwe.Ciphertext
+//@   case len(op0.Value) == 3 && len(op1.Value) == 2 && len(opOut.Value) == 3 && !eval.ScaleInvariant
+//@   case len(op0.Value) == 2 && len(op1.Value) == 3 && len(opOut.Value) == 3 && !eval.ScaleInvariant
+//@   case len(op0.Value) == 3 && len(op1.Value) == 3 && len(opOut.Value) == 3 && !eval.ScaleInvariant
+//@   ensures !isnil(err)
+
+// ---- signed machine scalars (property C05, "signed extremes"): the conversion of an int64 operand
+// ---- never wraps (obligation kind overflow under `safety overflow`: negating the scalar natively would,
+// ---- at the smallest value), and the output records the scale and degree of the input
+//@ afunc Evaluator.Sub#int64
+//@   property C05
+//@   dyn op1 int64
+//@   safety overflow
+//@   case len(op0.Value) == 2 && len(opOut.Value) == 2
+//@   requires 0 - 9223372036854775808 <= unbox(op1) && unbox(op1) <= 9223372036854775807
+//@   ensures implies(isnil(err), sameval(opOut.MetaData.PlaintextMetaData.Scale, old(op0.MetaData.PlaintextMetaData.Scale)))
+//@   ensures implies(isnil(err), len(opOut.Value) == len(op0.Value) && val(opOut.Value[1]) == old(val(op0.Value[1])))
+
+//@ afunc Evaluator.Add#int64
+//@   property C05
+//@   dyn op1 int64
+//@   safety overflow
+//@   case len(op0.Value) == 2 && len(opOut.Value) == 2
+//@   requires 0 - 9223372036854775808 <= unbox(op1) && unbox(op1) <= 9223372036854775807
+//@   ensures implies(isnil(err), sameval(opOut.MetaData.PlaintextMetaData.Scale, old(op0.MetaData.PlaintextMetaData.Scale)))
+//@   ensures implies(isnil(err), len(opOut.Value) == len(op0.Value) && val(opOut.Value[1]) == old(val(op0.Value[1])))
